@@ -290,13 +290,16 @@ func refParse(o optSet, spec string) (*refSched, outcome, string) {
 			return nil, ocUnspec, "zone prefix without a field list"
 		}
 		name := spec[strings.IndexByte(spec, '=')+1 : i]
-		if name == "" || name == "Local" {
-			return nil, ocUnspec, "zone name with special meaning to time.LoadLocation"
+		// The zone name is what stands between the first '=' and the first
+		// space; it is known iff time.LoadLocation knows it.
+		if name == "Local" {
+			return nil, ocUnspec, "zone name Local: time.LoadLocation returns time.Local, whose meaning as a prefix is not documented"
 		}
-		if _, err := time.LoadLocation(name); err != nil {
+		zl, err := time.LoadLocation(name)
+		if err != nil {
 			return nil, ocRefuse, "unknown-zone: " + name
 		}
-		rs.zone = name
+		rs.zone = zl.String() // the name itself; "UTC" for the empty name
 		spec = strings.TrimSpace(spec[i:])
 		if spec == "" {
 			return nil, ocUnspec, "zone prefix without a field list"
